@@ -330,7 +330,7 @@ REGISTRY = {
         "assumptions": COMMON_ASSUMPTIONS,
     },
     "C03": {
-        "rules": [caches.rule_derived_cache_invalidate, caches.rule_stale_receiver, inplace.rule_inplace_effect, inplace.rule_alias_spelling, inplace.rule_array_immut, inplace.rule_operator_pure, inplace.rule_axis_by_label],
+        "rules": [caches.rule_derived_cache_invalidate, caches.rule_stale_receiver, caches.rule_inplace_returns, inplace.rule_inplace_effect, inplace.rule_alias_spelling, inplace.rule_array_immut, inplace.rule_operator_pure, inplace.rule_axis_by_label],
         "explanation": (
             "static (AST + interprocedural alias/effect analysis): decides the non-mutation clause of C03 — "
             "every plain spelling of an (f, f_) pair leaves its receiver, the tensors it shares and their "
